@@ -1,4 +1,5 @@
 import Sebuf.Build
+import Sebuf.Lemmas.Ident
 /-!
 # C13 — everything the generators emit builds: Go compiles and vets, TypeScript loads
 
@@ -143,5 +144,16 @@ theorem w_header_helper_redeclared :
 
 /-- header names that differ only by the `X-` prefix collide as well. -/
 theorem header_func_name_not_injective : headerNameToFuncName "X-Api-Key".toList = headerNameToFuncName "Api-Key".toList := by decide
+
+
+/-- **identifier agreement, partial**: on plain snake_case names (`^[a-z]+(_[a-z]+)*$`) the Go
+client's spelling of a path variable's field is the one protoc-gen-go gives the struct field,
+so `client_path_field_identifier` cannot arise. -/
+theorem ident_agree_partial (p : Str) (h : simpleSnake p = true) : snakeToUpperCamel p = goCamelCase p :=
+  snakeToUpperCamel_eq_goCamelCase p h
+
+/-- the TypeScript side agrees with protoc's JSON name on the same names. -/
+theorem ts_ident_agree_partial (p : Str) (h : simpleSnake p = true) : snakeToLowerCamel p = jsonName p :=
+  snakeToLowerCamel_eq_jsonName p h
 
 end Sebuf.C13
